@@ -678,6 +678,12 @@ func extraCommand(cmd string, args []string) bool {
 	case "uritable":
 		runURITable(args)
 		return true
+	case "crashchild":
+		runCrashChild(args)
+		return true
+	case "crashobserve":
+		runCrashObserve(args)
+		return true
 	}
 	return false
 }
